@@ -234,6 +234,69 @@ Fixpoint merge_onto_from (seen : list string) (fs : al string string) (ins : lis
 Definition merge_files_onto (dest : al string string) (ins : list (list fentry)) : option (al string string) :=
   match merge_onto_from [] dest ins with Some (_, fs) => Some fs | None => None end.
 
+(* ---- tar archives (kapture.io.tar.TarHandler).  An archive is the list of its members in archive order; a member is
+        its name (after path_secure: "./a.kpt" and "a.kpt" are one name) and its bytes when it is a regular file,
+        None for any other entry (an archive made with the tar command also holds the directories).  kapture archives
+        are append-only: re-computed features are written again under the same name (add_array_to_tar = [tar_append]),
+        "the last occurrence is the most up to date one".
+        [tar_index] is  {path_secure(c.name): c for c in getmembers()}  : a later member replaces the value kept for
+        its name (and keeps the position of the first one: Python dict);  [tar_read] is get_array_from_tar's lookup
+        followed by extractfile(info).read() (a directory entry has nothing to read). *)
+Definition tmember : Type := string * option string.
+Definition archive := list tmember.
+Definition tar_index (a : archive) : al string (option string) :=
+  fold_left (fun m e => insert (fst e) (snd e) m) a [].
+Definition tar_read (a : archive) (n : string) : option string :=
+  match lookup n (tar_index a) with Some (Some d) => Some d | _ => None end.
+Definition tar_names (a : archive) : list string := keys (tar_index a).
+Definition tar_append (a : archive) (n d : string) : archive := a ++ [(n, Some d)].
+
+(* the index a reader must NOT build: keep the first member of a name (the oldest, superseded version) *)
+Definition tar_index_first (a : archive) : al string (option string) :=
+  fold_left (fun m e => insert_new (fst e) (snd e) m) a [].
+Definition tar_read_first (a : archive) (n : string) : option string :=
+  match lookup n (tar_index_first a) with Some (Some d) => Some d | _ => None end.
+
+(* where a feature / match file of an input comes from: a file below the dataset directory (content as read through
+   the path), or member [m] of the k-th archive of that input *)
+Inductive fsource :=
+| InDir (p : string) (u : Z) (d : string)
+| InTar (p : string) (u : Z) (k : nat) (m : string).
+Definition src_path (s : fsource) : string := match s with InDir p _ _ => p | InTar p _ _ _ => p end.
+
+Definition resolve (ar : list archive) (s : fsource) : option fentry :=
+  match s with
+  | InDir p u d => Some (mkF p false u d)
+  | InTar p u k m =>
+      match nth_error ar k with
+      | Some a => match tar_read a m with Some d => Some (mkF p true u d) | None => None end
+      | None => None
+      end
+  end.
+Fixpoint resolve_list (ar : list archive) (ss : list fsource) : option (list fentry) :=
+  match ss with
+  | [] => Some []
+  | s :: ss' => match resolve ar s, resolve_list ar ss' with
+                | Some e, Some es => Some (e :: es)
+                | _, _ => None
+                end
+  end.
+Fixpoint resolve_inputs (archs : list (list archive)) (srcs : list (list fsource)) : option (list (list fentry)) :=
+  match archs, srcs with
+  | [], [] => Some []
+  | ar :: archs', ss :: srcs' => match resolve_list ar ss, resolve_inputs archs' srcs' with
+                                 | Some es, Some r => Some (es :: r)
+                                 | _, _ => None
+                                 end
+  | _, _ => None
+  end.
+(* the merge of feature / match files, from what the inputs hold on disk (directories and raw archives) *)
+Definition merge_sources (archs : list (list archive)) (srcs : list (list fsource)) : option (al string string) :=
+  match resolve_inputs archs srcs with Some fs => merge_files fs | None => None end.
+Definition merge_sources_onto (dest : al string string) (archs : list (list archive)) (srcs : list (list fsource))
+  : option (al string string) :=
+  match resolve_inputs archs srcs with Some fs => merge_files_onto dest fs | None => None end.
+
 (* ---- correspondence *)
 Fixpoint remove_one {A} `{EqDec A} (x : A) (l : list A) : option (list A) :=
   match l with
@@ -279,9 +342,9 @@ Fixpoint files_agree (model : al string string) (seen : list (string * string)) 
   | (p, b) :: rest => eqb (lookup p model) (Some b) && negb (memb p (map fst rest)) && files_agree model rest
   end.
 
-Definition check_tool (skip_points skip_obs : bool) (ins : list input) (files : list (list fentry))
-           (o : obs_tool) : bool :=
-  match driver skip_points skip_obs ins, merge_files files, o with
+Definition check_tool (skip_points skip_obs : bool) (ins : list input) (archs : list (list archive))
+           (srcs : list (list fsource)) (o : obs_tool) : bool :=
+  match driver skip_points skip_obs ins, merge_sources archs srcs, o with
   | Ok (oc, oo), Some fs, Some (pts, tuples, seen) =>
       (match oc, pts with
        | Some c, Some (w, rs) => cloud_eqb c w rs
@@ -301,22 +364,44 @@ Definition check_tool (skip_points skip_obs : bool) (ins : list input) (files : 
 
 (* a merge of feature / match files (library functions) into a destination that already holds [dest];
    observed: the whole feature tree of the destination afterwards, or None = it raised *)
-Definition check_remerge (dest : list (string * string)) (files : list (list fentry))
+Definition check_remerge (dest : list (string * string)) (archs : list (list archive)) (srcs : list (list fsource))
            (o : option (list (string * string))) : bool :=
-  match merge_files_onto dest files, o with
+  match merge_sources_onto dest archs srcs, o with
   | Some fs, Some seen => files_agree fs seen && Nat.eqb (List.length fs) (List.length seen)
   | None, None => true
   | _, _ => false
   end.
 
+(* what kapture's own TarHandler, opened for reading, lists for an archive (list_files_in_tar) and returns for each listed
+   name (get_array_from_tar): the (name, bytes) of the regular files, compared as a set with the index of the raw members *)
+Definition regular (m : al string (option string)) : list (string * string) :=
+  flat_map (fun e => match snd e with Some d => [(fst e, d)] | None => [] end) m.
+Definition index_agrees (a : archive) (seen : list (string * string)) : bool := perm_eqb (regular (tar_index a)) seen.
+Fixpoint all2 {A B} (f : A -> B -> bool) (l : list A) (m : list B) : bool :=
+  match l, m with
+  | [], [] => true
+  | x :: l', y :: m' => f x y && all2 f l' m'
+  | _, _ => false
+  end.
+Definition tar_listing := list (list (list (string * string))).
+
 Inductive case :=
 | CaseLib (ins : list input) (o_po : obs_po) (o_p : obs_p)
-| CaseTool (skip_points skip_obs : bool) (ins : list input) (files : list (list fentry)) (o : obs_tool)
-| CaseRemerge (dest : list (string * string)) (files : list (list fentry)) (o : option (list (string * string))).
+| CaseTool (skip_points skip_obs : bool) (ins : list input) (archs : list (list archive)) (idx : tar_listing)
+           (srcs : list (list fsource)) (o : obs_tool)
+| CaseRemerge (dest : list (string * string)) (archs : list (list archive)) (idx : tar_listing) (srcs : list (list fsource))
+              (o : option (list (string * string))).
+
+(* every source of a case must be there (a member named by the case exists in its archive as a regular file):
+   otherwise the case itself is malformed and is rejected *)
+Definition sources_ok (archs : list (list archive)) (srcs : list (list fsource)) : bool :=
+  match resolve_inputs archs srcs with Some _ => true | None => false end.
 
 Definition check_case (c : case) : bool :=
   match c with
   | CaseLib ins o1 o2 => check_po ins o1 && check_p ins o2
-  | CaseTool sp so ins files o => check_tool sp so ins files o
-  | CaseRemerge dest files o => nodupb (map fst dest) && check_remerge dest files o
+  | CaseTool sp so ins archs idx srcs o =>
+      sources_ok archs srcs && all2 (all2 index_agrees) archs idx && check_tool sp so ins archs srcs o
+  | CaseRemerge dest archs idx srcs o =>
+      sources_ok archs srcs && all2 (all2 index_agrees) archs idx && nodupb (map fst dest) && check_remerge dest archs srcs o
   end.
